@@ -443,6 +443,14 @@ class SparseDrugComboInteraction(BayesianModel, MCMCModel):
                 "received a {} treatment dataset".format(data.treatment_arity)
             )
 
+        if np.isnan(data.observations).any():
+            raise ValueError("NaNs in observations, please check input data")
+
+        if not (data.observations >= 0.0).all():
+            raise ValueError(
+                "Observations should be non-negative, please check input data"
+            )
+
         self.single_effect_lookup.update(
             create_single_treatment_effect_map(
                 sample_ids=data.sample_ids,
